@@ -781,6 +781,14 @@ class Gene:
             if len(self.alleles[f].func_muts) > 0:
                 continue
             add: Dict[tuple, MajorAllele] = {}
+            # Fused alleles that the database defines explicitly (same structure,
+            # own functional mutations): a partial allele with the same functional
+            # mutations would be an indistinguishable duplicate of such an allele.
+            defined = {
+                sorted_tuple(a.func_muts)
+                for a in self.alleles.values()
+                if a.cn_config == f and len(a.func_muts) > 0
+            }
             for an, a in self.alleles.items():
                 # We only make partial major alleles from non-fused major alleles
                 if a.cn_config != "1":
@@ -788,6 +796,8 @@ class Gene:
                 new_name = f"{f}#{an}"
                 new_muts = preserved_mutations(f, a.func_muts)
                 key = sorted_tuple(new_muts)
+                if key in defined:
+                    continue
                 if key in add:
                     add[key].minors.update(
                         {
